@@ -102,7 +102,7 @@ def gen_cfg(rng):
     n_prod = rng.randint(1, 2) if regime == "overload" else rng.randint(1, 3)
     strategy = rng.choice(["all", "all", "default", "range", "roundrobin", "sticky"])
     if regime == "overload":
-        poll_rate, max_records = rng.choice([5, 10, 20]), rng.choice([1, 2, 5])
+        poll_rate, max_records = rng.choice([5, 10, 20]), rng.choice([1, 2, 5, 5, 100, None])
     else:
         poll_rate = rng.choice([5, 10] if long else [10, 20, 40])
         max_records = rng.choice([1, 5, 20, 100, 101, 250, None])          # None: library default (100)
@@ -124,7 +124,7 @@ def gen_cfg(rng):
     if regime == "burst" or rng.random() < 0.2:
         bursts = [[dur_ms(rng, 50, end_ms - 700), rng.randrange(n_prod), rng.choice([5, 20, 60, 150])]
                   for _ in range(rng.randint(1, 3))]
-    return {
+    cfg = {
         "end": end,
         "regime": regime,
         "partitions": partitions,
@@ -157,6 +157,12 @@ def gen_cfg(rng):
         "read_max": rng.choice([7, 7, 1, 100, 150, None, 0]),              # None: library default (100)
         "win": win,
     }
+    # A daemon interval below one nanosecond (EventLog.retention_check_interval, StreamProcessor.watermark_interval_s
+    # = 1e-10 s; also 0 / negative) is rejected by the constructors since fix 3e54509
+    # (fixes/C07-streaming-subnanosecond-interval.*) and is never generated; the regression inputs are
+    # corpus/C07/eventlog-subnanosecond-retention-interval.json and
+    # corpus/C07/streamprocessor-subnanosecond-watermark-interval.json.
+    return cfg
 
 
 def build(cfg, seed):
@@ -228,7 +234,8 @@ def build(cfg, seed):
         out, side = Results(f"results-{i}"), Results(f"late-{i}")
         p = StreamProcessor(f"proc-{i}", window_type=wt, aggregate_fn=agg, downstream=out,
                             allowed_lateness_s=w["lateness_ms"] / 1000.0,
-                            late_event_policy=LateEventPolicy[w["policy"]],
+                            late_event_policy={"DROP": LateEventPolicy.DROP, "UPDATE": LateEventPolicy.UPDATE,
+                                               "SIDE_OUTPUT": LateEventPolicy.SIDE_OUTPUT}[w["policy"]],
                             side_output=side if w["side"] else None,
                             watermark_interval_s=w["wm_ms"] / 1000.0)
         return p, out, side
